@@ -256,7 +256,7 @@ pub fn run(ctx: &mut Ctx) {
     let seed = ctx.seed;
     // exhaustive acceptance sweep
     let ex = exhaustive();
-    let stride = ctx.tier.pick(3usize, 1);
+    let stride = ctx.tier.pick(5usize, 1);
     let off = (seed as usize) % stride;
     let bads: Vec<(EnumDefinition, (String, String))> = ex
         .par_iter()
